@@ -29,7 +29,7 @@ CLAIMED = {
    "are each a Lean theorem about the faithful model (isEmpty_iff, isDeterministic*_iff, isAcyclic_iff, mem_leadingToFinal_iff, "
    "acceptedWords_exact[_unbounded]); correspondence compares every return value / yielded multiset with the model and with the "
    "bounded-language oracle (mem_langUpTo_iff).",
-   "as C01; termination of the unbounded enumeration on finite languages is observed (per-case time limit), not proved",
+   "as C01; isAcyclic_total, acceptedWords_total and acceptedWords_unbounded_total prove termination with explicit bounds (the path exploration of is_acyclic is exponential: isAcyclic_no_polynomial_bound)",
    "Lean 4 theorems on a faithful model + differential correspondence", "6 C04"),
 }
 PLANNED = {}
